@@ -122,6 +122,9 @@ def deep_merge_combine_lists(dct, merge_dct):
     return dct
 
 
+STRUCTURAL_LIST_KEYS = ('_add', '_delete', '_move', '_generate')
+
+
 def deep_merge_multi_update(dct, merge_dct):
     """ Recursive dict merge combines multiple values
 
@@ -135,6 +138,12 @@ def deep_merge_multi_update(dct, merge_dct):
         if (k in dct and isinstance(dct[k], dict)
                 and isinstance(merge_dct[k], collections.abc.Mapping)):
             deep_merge_multi_update(dct[k], merge_dct[k])
+        elif (k in dct and k in STRUCTURAL_LIST_KEYS
+                and isinstance(dct[k], list)
+                and isinstance(merge_dct[k], list)):
+            # lists of structural operations that several ports send to
+            # one store are carried out one after the other
+            dct[k] = dct[k] + merge_dct[k]
         elif k in dct:
             # put values together in a list under '_multi_update' key
             if isinstance(dct[k], dict) and MULTI_UPDATE_KEY in dct[k]:
